@@ -17,7 +17,8 @@ def generate(tier, rng):
         for mode in ('mixed', 'all-message', 'none', 'all-docs', 'all-detailed'):
             for nvar in (1, 3, 6):
                 e = ESpec(id='c14_%d' % k, name='EnC14x%d' % k, derives=['EnumMessage'], feats=['msg'],
-                          style=STYLES[(k * 5 + ps) % len(STYLES)], generics=['', 'ty', 'lt'][k % 3] if nvar > 1 else '')
+                          style=STYLES[(k * 5 + ps) % len(STYLES)], generics=['', 'ty', 'lt'][k % 3] if nvar > 1 else '',
+                          prefix=[None, 'pfx/', None, 'é-'][k % 4])
                 for i in range(nvar):
                     kind = KINDS[(i + k) % len(KINDS)]
                     v = VSpec(ident='Va%d%s' % (i, 'Xy'[i % 2]), kind=kind[0], ftypes=list(kind[1]))
